@@ -1785,6 +1785,212 @@ def d4_find_centers(ck):
 
 
 # ---------------------------------------------------------------------------
+# Failure exits: no `raise` on a path that admissible inputs take
+#
+# The property promises a RESULT for every input inside the quantifier (a
+# fitted estimator and any X for predict; labels and distances of one length
+# for find_cluster_centers).  A validation guard may therefore raise only under
+# a condition that no admissible input satisfies.  Every `raise` (and `assert`)
+# of the function is enumerated with its path condition (CFG Assume nodes,
+# temporaries and one-expression predicate helpers expanded, De Morgan pushed
+# inwards) and each atom is classified by a per-function oracle:
+#   'never'  - false for every admissible input (the path is a rejection of
+#              inadmissible input: fine, whatever else the path tests),
+#   'always' - true for every admissible input,
+#   'some'   - a conjunction of atoms that one admissible input satisfies,
+#   None     - not understood.
+# one 'never' atom -> discharged; only 'always'/'some' atoms on a straight-line
+# path (not inside a loop / try / with) -> VIOLATION; anything else ->
+# incomplete (for `assert`: silent - an extra assertion the rule cannot read
+# is not a construct of the property).
+
+def _dnf(test, polarity, cap=16):
+    """A boolean test under a polarity as a disjunction of conjunctions of
+    atoms (Cmp / ('expr', node, polarity)); None when it does not decompose
+    or grows beyond `cap` alternatives."""
+    if isinstance(test, ast.UnaryOp) and isinstance(test.op, ast.Not):
+        return _dnf(test.operand, not polarity, cap)
+    if isinstance(test, ast.BoolOp):
+        parts = [_dnf(v, polarity, cap) for v in test.values]
+        if any(p is None for p in parts):
+            return None
+        if isinstance(test.op, ast.And) == polarity:
+            alts = [[]]
+            for p in parts:
+                alts = [a + b for a in alts for b in p]
+                if len(alts) > cap:
+                    return None
+            return alts
+        alts = [a for p in parts for a in p]
+        return alts if len(alts) <= cap else None
+    c = conjuncts(test, polarity)
+    return None if c is None else [c]
+
+
+def _failure_sites(mod, fn, fi):
+    """[(stmt, alternatives or None, straight)] for every raise / assert of
+    `fn`: the condition under which the statement FAILS, as a disjunction of
+    conjunctions of atoms."""
+    out = []
+    for s in walk_local(fn):
+        if not isinstance(s, (ast.Raise, ast.Assert)):
+            continue
+        if isinstance(s, ast.Raise) and s.exc is None:
+            continue                                   # re-raise inside a handler: the original failure is the site
+        pc = path_condition(fi, s, fn)
+        tests = None if pc is None else [(t, pol) for t, pol, _ in pc]
+        if tests is not None and isinstance(s, ast.Assert):
+            tests.append((s.test, False))
+        alts = None
+        if tests is not None:
+            alts = [[]]
+            for t, pol in tests:
+                d = _dnf(canon(through_expr_helpers(mod, fn, xp(fi, t))), pol)
+                if d is None or len(alts) * len(d) > 16:
+                    alts = None
+                    break
+                alts = [a + b for a in alts for b in d]
+        straight = _enclosing(mod, s, (ast.For, ast.While, ast.Try, ast.With, ast.AsyncFor, ast.AsyncWith), stop=fn) is None
+        out.append((s, alts, straight))
+    return out
+
+
+def _decide_failure(ck, rule, mod, F, s, alts, straight, verdict_of, admissible):
+    """`verdict_of(atoms)` -> ('never', '') : no admissible input satisfies the
+    conjunction / ('all', why): one admissible input satisfies all of it /
+    (None, '').  The statement fails when ANY alternative holds."""
+    kind = 'raise' if isinstance(s, ast.Raise) else 'assert'
+    text = lambda atoms: ' and '.join(atom_text(a) for a in atoms) or '<unconditional>'
+    construct = 'failure exit of %s' % F
+    vs = [verdict_of(a) for a in alts] if alts is not None else []
+    cond = ' or '.join(text(a) for a in alts) if alts is not None else '<not decomposable>'
+    hit = [(a, v[1]) for a, v in zip(alts or [], vs) if v[0] == 'all']
+    if alts is not None and all(v[0] == 'never' for v in vs):
+        ck.ok(rule, mod, s, '%s: %s when %s' % (construct, kind, cond), 'rejects only input outside the quantifier (%s)' % admissible)
+    elif hit and straight:
+        ck.bad(rule, mod, s, F, construct,
+               'the %s at %s fails when `%s`: %s. The property promises a result for every such input (%s); a validation guard may '
+               'fail only under a condition no admissible input satisfies' % (kind, mod.loc(s), text(hit[0][0])[:200], hit[0][1], admissible))
+    elif kind == 'raise':
+        ck.missing(rule, 'failure exit at %s (`%s` when %s): cannot show that no admissible input (%s) takes it' % (
+            mod.loc(s), u(s)[:80], cond[:160], admissible))
+
+
+def _self_attrs_read(node, selfname):
+    return {x.attr for x in ast.walk(node) if isinstance(x, ast.Attribute) and isinstance(x.value, ast.Name)
+            and x.value.id == selfname and isinstance(x.ctx, ast.Load)}
+
+
+def d1_predict_failures(ck):
+    """predict: the attributes of `self` the result path READS (arguments of
+    the assign_to_nearest_center call and of the returned ClusterResult, closed
+    under the properties of the class that compute them: centers_ -> result_)
+    are what a fitted estimator has.  A guard `not hasattr(self, <such attr>)`
+    rejects unfitted estimators only.  A guard that fails when such an
+    attribute IS present leaves no input for which predict returns: with the
+    attribute the guard fails, without it the result path raises
+    AttributeError."""
+    rule = 'C10.D1.predict.raises'
+    F = 'MolecularClusterMixin.predict'
+    mod = ck.repo.mod(CU)
+    fn = mod.func(F)
+    fi = finfo(mod, fn)
+    ps = params(fn)
+    if not ps:
+        return
+    me = ps[0]
+    cls = F.rsplit('.', 1)[0]
+    sites = _failure_sites(mod, fn, fi)
+    if not sites:
+        return
+    need = set()
+    for c in calls_in(fn):
+        if _is_call_to(c, 'assign_to_nearest_center') or _is_call_to(c, 'ClusterResult'):
+            need |= _self_attrs_read(xp(fi, c), me)
+    for _ in range(4):
+        more = set()
+        for a in need:
+            prop = mod.functions.get('%s.%s' % (cls, a))
+            if prop is not None and params(prop):
+                more |= _self_attrs_read(prop, params(prop)[0])
+        if more <= need:
+            break
+        need |= more
+    if not need:
+        ck.missing(rule, 'attributes of the fitted estimator read by the result path of predict')
+        return
+
+    def kind_of(a):
+        """+1: holds iff a needed attribute is present; -1: iff it is absent; 0: unknown."""
+        if isinstance(a, Cmp):
+            for pat in ('getattr(%s, _S, None)' % me,):
+                for side, other in ((a.lhs, a.rhs), (a.rhs, a.lhs)):
+                    m = match(pat, side)
+                    if m is not None and const_value(m['_S']) in need and isinstance(other, ast.Constant) and other.value is None:
+                        if a.op in (ast.Is, ast.Eq):
+                            return -1
+                        if a.op in (ast.IsNot, ast.NotEq):
+                            return +1
+            return 0
+        m = match('hasattr(%s, _S)' % me, a[1])
+        if m is not None and const_value(m['_S']) in need:
+            return +1 if a[2] else -1
+        return 0
+    adm = 'an estimator that has been fit: it has `%s`' % '`, `'.join('%s.%s' % (me, x) for x in sorted(need))
+    why = ('it holds for every estimator that has the attribute(s) the result path reads, and without them the '
+           'result path raises AttributeError - predict returns for NO estimator')
+
+    def verdict_of(atoms):
+        ks = [kind_of(x) for x in atoms]
+        if any(k < 0 for k in ks):
+            return 'never', ''
+        if all(k > 0 for k in ks):                     # also: no atom at all (unconditional)
+            return 'all', why
+        return None, ''
+    for s, alts, straight in sites:
+        _decide_failure(ck, rule, mod, F, s, alts, straight, verdict_of, adm)
+
+
+def d4_find_centers_failures(ck):
+    """find_cluster_centers: labels and distances are per-frame arrays of one
+    length n >= 1.  The path condition of a failure is evaluated over the
+    finite abstract domain of _abstract_inputs (n frames, k labels, m
+    distances); it must admit no input with n == m."""
+    rule = 'C10.D4.find-centers.raises'
+    F = 'find_cluster_centers'
+    mod = ck.repo.mod(CU)
+    fn = mod.func(F)
+    fi = finfo(mod, fn)
+    A, D = params(fn)[:2]
+    adm = 'len(%s) == len(%s) >= 1' % (A, D)
+
+    def lengths(a):
+        # per-frame arrays are one-dimensional: X.shape == Y.shape iff len(X) == len(Y)
+        if isinstance(a, Cmp) and a.op in (ast.Eq, ast.NotEq):
+            ms = [match('_U.shape', x) or match('np.shape(_U)', x) for x in (a.lhs, a.rhs)]
+            if all(m is not None for m in ms):
+                return Cmp(*[ast.Call(func=ast.Name(id='len', ctx=ast.Load()), args=[m['_U']], keywords=[]) for m in ms][:1]
+                           + [a.op] + [ast.Call(func=ast.Name(id='len', ctx=ast.Load()), args=[ms[1]['_U']], keywords=[])])
+        return a
+
+    def verdict_of(atoms):
+        atoms = [lengths(x) for x in atoms]
+        counts = [x for x in atoms if _abstract_inputs([x], A, D) is not None]
+        dom = _abstract_inputs(counts, A, D)
+        if dom is None:
+            return None, ''
+        good = sorted((t for t in dom[0] if t[0] == t[2] and t[0] >= 1), key=lambda t: (t[0] < 2, t))
+        if counts and not good:
+            return 'never', ''
+        if len(counts) == len(atoms) and good:
+            return 'all', ('it holds e.g. for %d frame(s) with %d distinct label(s) and %d distance(s), a well-formed '
+                           'labels/distances pair' % good[0])
+        return None, ''
+    for s, alts, straight in _failure_sites(mod, fn, fi):
+        _decide_failure(ck, rule, mod, F, s, alts, straight, verdict_of, adm)
+
+
+# ---------------------------------------------------------------------------
 # D5
 
 def d5_partition_list(ck):
@@ -2303,9 +2509,11 @@ def check(ck):
     d2_argmin_branch(ck)
     d1_metric_arg_order(ck)
     d1_predict(ck)
+    d1_predict_failures(ck)
     d2_partition(ck)
     d3_partition_indices(ck)
     d4_find_centers(ck)
+    d4_find_centers_failures(ck)
     d5_partition_list(ck)
     d7_batches(ck)
     d7_batch_order(ck)
